@@ -2,6 +2,7 @@
 import SMGo.Spec.Bytes
 import SMGo.Spec.SM4Fast
 import SMGo.Spec.GCM
+import SMGo.Model.GCMAlgo
 open SMGo
 
 namespace Driver.GCM
@@ -26,6 +27,22 @@ def handle (toks : List String) : Option String :=
       if key.length ≠ 16 ∨ nonce.length = 0 ∨ t < 12 ∨ t > 16 then some "outside-domain" else
       let rk := Spec.SM4.keySchedule key
       some (match Spec.GCM.openGCM (Spec.SM4.cryptFast rk) t nonce ct aad with
+        | some pt => "ok " ++ showB pt
+        | none => "err")
+    | _, _, _, _, _ => some "bad-op"
+  | ["gcm.seal", key, nonce, aad, pt, t] =>
+    match parseBytes key, parseBytes nonce, parseBytes aad, parseBytes pt, t.toNat? with
+    | some key, some nonce, some aad, some pt, some t =>
+      if key.length ≠ 16 ∨ nonce.length = 0 ∨ t < 12 ∨ t > 16 then some "outside-domain" else
+      let rk := Spec.SM4.keySchedule key
+      some ("ok " ++ showB (Model.GCM.seal (Spec.SM4.cryptFast rk) t nonce pt aad))
+    | _, _, _, _, _ => some "bad-op"
+  | ["gcm.open", key, nonce, aad, ct, t] =>
+    match parseBytes key, parseBytes nonce, parseBytes aad, parseBytes ct, t.toNat? with
+    | some key, some nonce, some aad, some ct, some t =>
+      if key.length ≠ 16 ∨ nonce.length = 0 ∨ t < 12 ∨ t > 16 then some "outside-domain" else
+      let rk := Spec.SM4.keySchedule key
+      some (match Model.GCM.open (Spec.SM4.cryptFast rk) t nonce ct aad with
         | some pt => "ok " ++ showB pt
         | none => "err")
     | _, _, _, _, _ => some "bad-op"
